@@ -672,3 +672,6 @@ M('deadline-at-form-keeps-the-at', ['C08'], F, "parse_date_and_or_time(exit_afte
 M('interval-weights-minutes-hours-swapped', ['C08'], UTL, "zip([24*60*60, 60*60, 60, 1]", "zip([24*60*60, 60, 60*60, 1]", ['C08.R8'])
 M('interval-left-aligned', ['C08'], UTL, "parts = ('0:0:0:' + text).split(':')[-4:]", "parts = (text + ':0:0:0').split(':')[:4]", ['C08.R8'])
 M('deadline-compared-inverted', ['C08'], F, "time.time() >= exit_after_t:", "time.time() <= exit_after_t:", ['C08.R8', 'C08.R4'])
+
+M('emit-disabled-test-inverted', ['C18'], LN, "if not os.getenv(\"OPENLINEAGE_DISABLED\", \"false\").lower() in (\"true\", \"1\"):", "if os.getenv(\"OPENLINEAGE_DISABLED\", \"false\").lower() in (\"true\", \"1\"):", ['C18.R7'])
+M('payload-dict-of-none', ['C18'], LN, "data_to_use = dict(raw_data or {})", "data_to_use = dict(raw_data)", ['C18.R7'])
